@@ -118,6 +118,31 @@ def fill_helpers(ctx, crate):
                        "%d go_down (first from the container's own cell, one to each contained cell, the last to (low.depth, low.hash + 1)), %d go_up (dd_4_go_up of the next cell, then back to the container's depth)" % (len(downs), len(ups)) if okt else
                        "fill targets not as required: closing go_down to (low.depth, low.hash + 1): %d; other targets %s; climbs %s; start %d" % (len(closing), [(show(ev.args[2])[:30], show(ev.args[3])[:30]) for ev in bad], [show(ev.args[2])[:40] for ev in badup], len(first)),
                        at=b.span, kind="N")
+        if fn.endswith("::not"):
+            # the complement walk: from (0, 0) down to each cell (depth and hash of one and the same cell),
+            # up by dd_4_go_up of the next cell, finally up by the current depth (to depth 0), then the
+            # remaining base cells h..12; the empty case pushes the base cells 0..12
+            di = crate.field_index("nested::bmoc::Cell", "depth"); hi = crate.field_index("nested::bmoc::Cell", "hash")
+            def cell_pair(td, th):
+                return td[0] == 'fld' and th[0] == 'fld' and td[2] == di and th[2] == hi and td[1] == th[1]
+            downs = [ev for ev in evs if ev.callee == GO_DOWN]; ups = [ev for ev in evs if ev.callee == GO_UP]
+            dds = {ev.ret: ev for ev in evs if ev.callee == DD}
+            bad = [ev for ev in downs if not cell_pair(ev.args[2], ev.args[3])]
+            first = [ev for ev in downs if ev.argvals and ev.argvals[0] == C('u8', 0) and ev.argvals[1] == C('u64', 0)]
+            badup = []; final = []
+            for ev in ups:
+                a = ev.args[2]
+                if a in dds and cell_pair(dds[a].args[2], dds[a].args[3]) and ev.argvals and dds[a].args[0] == ev.argvals[0] and dds[a].args[1] == ev.argvals[1]: continue
+                if ev.argvals and a == ev.argvals[0]: final.append(ev); continue
+                badup.append(ev)
+            rng = [ev.args[0][3] for ev in evs if ev.callee and "into_iter" in ev.callee and ev.args and ev.args[0][0] == 'agg' and ev.args[0][1] == 'adt:std::ops::Range' and ev.args[0][3][1] == C('u64', 12)]
+            tail = [r_ for r_ in rng if final and r_[0][0] == 'sym' and r_[0][1][0] == 'havoc' and r_[0][1][1] == final[0].site]
+            empty = [r_ for r_ in rng if r_[0] == C('u64', 0)]
+            okt = not bad and not badup and len(first) == 1 and len(final) == 1 and len(downs) >= 2 and len(tail) == 1 and len(empty) == 1
+            ctx.report(clause, "not:walk-targets", okt,
+                       "%d go_down to (cell.depth, cell.hash), the first from (0, 0); go_up by dd_4_go_up of the next cell, at the end by the current depth; then base cells h..12 (0..12 when empty)" % len(downs) if okt else
+                       "complement walk not as required: other go_down targets %s; other climbs %s; start %d; final climb %d; closing ranges %d / %d" % ([(show(ev.args[2])[:30], show(ev.args[3])[:30]) for ev in bad], [show(ev.args[2])[:40] for ev in badup], len(first), len(final), len(tail), len(empty)),
+                       at=b.span, kind="N")
         ps = [ev for ev in evs if ev.callee == PUSH]
         raws = [ev for ev in evs if ev.callee == RAW]
         if fn.endswith("::not"):
